@@ -123,10 +123,10 @@ fn main() {
                     "per" => per::search(&mut rng, budget / 4, &mut try_one),
                     "seq" => seq::search(&mut rng, budget, &mut try_one),
                     "decode" => decode::search(&mut rng, budget * 4, &mut try_one),
-                    "proto" => proto::search(budget, &mut try_one),
+                    "proto" => proto::search(seed.max(1), budget, &mut try_one),
                     "protodec" => proto::search_dec(seed, budget, &mut try_one),
                     "setorder" => zoo::search_setorder(&mut try_one),
-                    "zoo" => zoo::search_zoo(budget, &mut try_one),
+                    "zoo" => zoo::search_zoo(seed.max(1), budget, &mut try_one),
                     "resolve" => front::search_resolve(&mut try_one),
                     "inttext" => front::search_inttext(&mut try_one),
                     "charset" => {
